@@ -43,6 +43,7 @@ var codeStyles = []string{
 	"{ /* } { */ return nil, nil }",
 	"{}",
 	"{\n\treturn nil, nil\n}",
+	"{ s := \"Größe ©µ± ←Ω€\"; _ = s /* é */; return nil, nil }",
 }
 
 // NCodeStyles is the number of code block spellings.
